@@ -521,6 +521,12 @@ func init() {
 			jobs = append(jobs, func() {
 				cs := genC03(prng.New(r.SeedV, "c03", i))
 				cs.Sc.Name = fmt.Sprintf("hidden#%d", i)
+				if body, isM := cs.Sc.Requests[0].Body.(M); isM && (cs.Mode == "post" || cs.Mode == "send") && i%10 == 7 {
+					// the same post under an aliased vocabulary: members
+					// named as:bto / as:bcc are bto / bcc all the same
+					cs.Sc.Requests[0].Body = aliasDoc(body)
+					cs.Sc.Name += ".aliased"
+				}
 				if i < 2 {
 					r.Sample(map[string]interface{}{"mode": cs.Mode, "request": cs.Sc.Requests[0], "social": cs.Sc.Cfg.Social, "federating": cs.Sc.Cfg.Federating})
 				}
@@ -567,6 +573,14 @@ func init() {
 			jobs = append(jobs, func() {
 				cs := genHandlerCase(prng.New(r.SeedV, "c03.handler", i))
 				cs.Sc.Name = fmt.Sprintf("hidden-handler#%d", i)
+				if i%10 == 7 {
+					for k, v := range cs.Sc.Store {
+						if m, isM := v.(M); isM && k == cs.Sc.Requests[0].URL {
+							cs.Sc.Store[k] = aliasDoc(m)
+							cs.Sc.Name += ".aliased"
+						}
+					}
+				}
 				if i == 0 {
 					r.Sample(map[string]interface{}{"mode": "handler", "stored": cs.Sc.Store})
 				}
